@@ -121,7 +121,8 @@ CLAIMS.update({
             "§3.5, §3.6, §3.9, §4 C06"),
     "C07": ("dependence-set analysis of culling bounds + structural coverage rules",
             "DEP: every depth cut-off / bounding box depends on all parameters the exact extent depends on (min depth, segment lengths "
-            "and thicknesses, coordinates, radius), spherical buffer factor > 1, max-accumulators cover all sections x segments x both "
+            "and thicknesses, coordinates, radius), spherical buffer factor > 1, both longitude buffers of the spherical box dominate b/cos(lat) at both "
+            "trench ends (DEP.bbox-lon), max-accumulators cover all sections x segments x both "
             "components, depth-surface pairing (min<-minimum, max<-maximum, same side everywhere), full-scan fallback before "
             "Surface::local_value throws, who-may-call of alias-unaware implementations. Numeric sufficiency of the buffer near the poles "
             "and kd-tree pruning arithmetic are not decided",
